@@ -435,6 +435,17 @@ def c03_5(ck, prog):
                 'create_unique_client_name; minted names start with ":"', 'ABS',
                 breaks='a unique name is handed out twice', floor=3)
     fn = prog.fn('create_unique_client_name', 'bus/driver.c')
+    # a counter that is an automatic variable starts again on every call: that is a violation of the property,
+    # not an unrecognised shape
+    auto = [c for b, i, c in fn.calls('_dbus_string_append_int') if len(c['args']) > 1 and is_ref(c['args'][1])
+            and c['args'][1].get('kind') == 'local']
+    if auto:
+        for c in auto:
+            nm = c['args'][1]['name']
+            r.violation('%s:static' % nm, fn.name, fn.file, c['line'],
+                        'the unique name is minted from %s, an automatic variable that starts again on every call: '
+                        'the same unique name can be handed out twice' % nm)
+        return
     MAJOR, MINOR = counter_names(fn)
     for name in (MAJOR, MINOR):
         ws = lib.global_writes(prog, name)
